@@ -153,6 +153,28 @@ var props = map[string]propCfg{
 		Bounds:   "as C01: all byte strings <= 3/4, token sequences <= 2/3, and 1-2 free token slots inside 19 bracket/operator contexts (range bounds, groups, field values, prefix/suffix operators), with and without default field",
 		Outside:  "longer inputs; garbage needing more than 2 free tokens in one place",
 	},
+	"C15": {
+		Quick: []hrun{
+			{Harness: "DriverFold", Params: P("D", 1, "LEAVES", 1, "MODE", 0, "RETLEN", 1)},
+			{Harness: "DriverFold", Params: P("D", 1, "LEAVES", 1, "MODE", 0, "RETLEN", 0)},
+			{Harness: "DriverFold", Params: P("D", 1, "LEAVES", 1, "MODE", 1, "RETLEN", 1)},
+			{Harness: "DriverFold", Params: P("D", 1, "LEAVES", 2, "MODE", 2, "RETLEN", 1)},
+			{Harness: "UnsupportedOps", Params: P("D", 2, "LEAVES", 0)},
+		},
+		Thorough: []hrun{
+			{Harness: "DriverFold", Params: P("D", 1, "LEAVES", 1, "MODE", 0, "RETLEN", 1)},
+			{Harness: "DriverFold", Params: P("D", 1, "LEAVES", 1, "MODE", 0, "RETLEN", 0)},
+			{Harness: "DriverFold", Params: P("D", 1, "LEAVES", 1, "MODE", 0, "RETLEN", 2)},
+			{Harness: "DriverFold", Params: P("D", 1, "LEAVES", 1, "MODE", 1, "RETLEN", 1)},
+			{Harness: "DriverFold", Params: P("D", 1, "LEAVES", 1, "MODE", 2, "RETLEN", 1)},
+			{Harness: "DriverFold", Params: P("D", 2, "LEAVES", 0, "MODE", 0, "RETLEN", 1)},
+			{Harness: "DriverFold", Params: P("D", 2, "LEAVES", 0, "MODE", 1, "RETLEN", 1)},
+			{Harness: "UnsupportedOps", Params: P("D", 2, "LEAVES", 0)},
+			{Harness: "UnsupportedOps", Params: P("D", 1, "LEAVES", 1)},
+		},
+		Bounds:  "expression trees as the real parser produces them for every tree of depth <= 1 over 19 leaf forms (quick) and depth <= 2 over 3 leaf forms (thorough), all 19 operators registered with tracing functions that return fresh symbolic strings of length 0-2; one call returning an error at every position; every single operator removed from the map",
+		Outside: "maps with more than one entry removed; render functions with side effects on the tree; trees not reachable from Parse",
+	},
 	"C16": {
 		Quick:    []hrun{{Harness: "LexSegment", Params: P("N", 0)}, {Harness: "LexSegment", Params: P("N", 1)}, {Harness: "LexSegment", Params: P("N", 2)}, {Harness: "LexSegment", Params: P("N", 3)}},
 		Thorough: []hrun{{Harness: "LexSegment", Params: P("N", 0)}, {Harness: "LexSegment", Params: P("N", 1)}, {Harness: "LexSegment", Params: P("N", 2)}, {Harness: "LexSegment", Params: P("N", 3)}, {Harness: "LexSegment", Params: P("N", 4)}},
